@@ -30,7 +30,7 @@ Proof. exact ref_process_idempotent. Qed.
 Print Assumptions C17_reference_idempotent.
 
 Theorem C17_processdns_idempotent : forall t p lim rm,
-  wf p -> bytes_ok (arr p) -> (lim <= 256)%nat ->
+  wf p -> bytes_ok (arr p) -> (lim <= 255)%nat ->
   ref_message lim (view p) = Some rm -> msg_within lim (view p) ->
   let t1 := snd (processDNS t p) in
   fst (processDNS t1 p) = Ok None /\ ctable_of (snd (processDNS t1 p)) = ctable_of t1.
@@ -48,7 +48,7 @@ Print Assumptions C17_history_example.
 
 (* one theorem per record type decodeRRs decodes (hypotheses: the reference reads a record r at off,
    owner within 254 pointers; non-vacuity: C17_records_nonvacuous has a CNAME, an A and a PTR record) *)
-Theorem C17_rr_A : forall p buffer off e r nx lim, wf p -> bytes_ok (arr p) -> (lim <= 256)%nat ->
+Theorem C17_rr_A : forall p buffer off e r nx lim, wf p -> bytes_ok (arr p) -> (lim <= 255)%nat ->
   ref_rr_at lim (view p) off = Some (r, nx) -> (depth_at (view p) off <= 254)%nat ->
   rr_type r = 1 -> rr_rdlen r = 4%nat ->
   exists u e', rr_step p buffer off e = (Ok (nx, u, e'), e') /\
@@ -56,7 +56,7 @@ Theorem C17_rr_A : forall p buffer off e r nx lim, wf p -> bytes_ok (arr p) -> (
 Proof. exact rr_type_A. Qed.
 Print Assumptions C17_rr_A.
 
-Theorem C17_rr_AAAA : forall p buffer off e r nx lim, wf p -> bytes_ok (arr p) -> (lim <= 256)%nat ->
+Theorem C17_rr_AAAA : forall p buffer off e r nx lim, wf p -> bytes_ok (arr p) -> (lim <= 255)%nat ->
   ref_rr_at lim (view p) off = Some (r, nx) -> (depth_at (view p) off <= 254)%nat ->
   rr_type r = 28 -> rr_rdlen r = 16%nat ->
   exists u e', rr_step p buffer off e = (Ok (nx, u, e'), e') /\
@@ -64,20 +64,20 @@ Theorem C17_rr_AAAA : forall p buffer off e r nx lim, wf p -> bytes_ok (arr p) -
 Proof. exact rr_type_AAAA. Qed.
 Print Assumptions C17_rr_AAAA.
 
-Theorem C17_rr_CNAME : forall p buffer off e r nx lim, wf p -> bytes_ok (arr p) -> (lim <= 256)%nat ->
+Theorem C17_rr_CNAME : forall p buffer off e r nx lim, wf p -> bytes_ok (arr p) -> (lim <= 255)%nat ->
   ref_rr_at lim (view p) off = Some (r, nx) -> (depth_at (view p) off <= 254)%nat ->
   forall cls cn, rr_type r = 5 ->
-  ref_decode (view p) (rr_rdoff r) = Some (cls, cn) -> (wire_len cls <= lim)%nat ->
+  ref_decode (view p) (rr_rdoff r) = Some (cls, cn) -> name_ok lim cls = true ->
   (depth_at (view p) (rr_rdoff r) <= 254)%nat ->
   exists u e', rr_step p buffer off e = (Ok (nx, u, e'), e') /\
     (cache_of_entry e', u) = learn_into (cache_of_entry e) (LCNAME (dotted (rr_owner r)) (dotted cls) (rr_ttl r)).
 Proof. exact rr_type_CNAME. Qed.
 Print Assumptions C17_rr_CNAME.
 
-Theorem C17_rr_PTR : forall p buffer off e r nx lim, wf p -> bytes_ok (arr p) -> (lim <= 256)%nat ->
+Theorem C17_rr_PTR : forall p buffer off e r nx lim, wf p -> bytes_ok (arr p) -> (lim <= 255)%nat ->
   ref_rr_at lim (view p) off = Some (r, nx) -> (depth_at (view p) off <= 254)%nat ->
   forall ip pls pn, rr_type r = 12 -> reverse_v4 (rr_owner r) = Some ip ->
-  ref_decode (view p) (rr_rdoff r) = Some (pls, pn) -> (wire_len pls <= lim)%nat ->
+  ref_decode (view p) (rr_rdoff r) = Some (pls, pn) -> name_ok lim pls = true ->
   (depth_at (view p) (rr_rdoff r) <= 254)%nat ->
   exists u e', rr_step p buffer off e = (Ok (nx, u, e'), e') /\
     (cache_of_entry e', u) = learn_into (cache_of_entry e) (LPTR (dotted pls) ip (rr_ttl r)).
@@ -85,11 +85,10 @@ Proof. exact rr_type_PTR. Qed.
 Print Assumptions C17_rr_PTR.
 
 (* MX, NS, SOA, TXT, SRV, NSEC, OPT, unknown types, and PTR owners that are no IPv4 reverse name *)
-Theorem C17_rr_ignored : forall p buffer off e r nx lim, wf p -> bytes_ok (arr p) -> (lim <= 256)%nat ->
+Theorem C17_rr_ignored : forall p buffer off e r nx lim, wf p -> bytes_ok (arr p) -> (lim <= 255)%nat ->
   ref_rr_at lim (view p) off = Some (r, nx) -> (depth_at (view p) off <= 254)%nat ->
   (rr_type r <> 1 /\ rr_type r <> 28 /\ rr_type r <> 5 /\ rr_type r <> 12) \/
-  (rr_type r = 12 /\ reverse_v4 (rr_owner r) = None /\ Forall dotfree (rr_owner r) /\
-   (depth_at (view p) (rr_rdoff r) <= 254)%nat) ->
+  (rr_type r = 12 /\ reverse_v4 (rr_owner r) = None /\ (depth_at (view p) (rr_rdoff r) <= 254)%nat) ->
   exists e', rr_step p buffer off e = (Ok (nx, false, e'), e') /\ cache_of_entry e' = cache_of_entry e /\ de_name e' = de_name e.
 Proof. exact rr_type_ignored. Qed.
 Print Assumptions C17_rr_ignored.
@@ -119,19 +118,13 @@ Theorem C17_nbns_roundtrip_all : forall n spare, (length n <= 16)%nat -> bytes_o
 Proof. exact nbns_roundtrip_all. Qed.
 Print Assumptions C17_nbns_roundtrip_all.
 
-(* decodeName against the reference decoder for ALL byte strings, offsets, buffers and capacities:
-   no name => error; a name => whatever is returned is that name and its end offset, it is returned
-   when reached through <= 254 pointers with <= 256 octets, and more than 254 pointers always give an
-   error (Examples: 254 / 255 pointers, 256 / 257 octets in Properties/C17.v) *)
+(* decodeName is EXACTLY the reference decoder restricted by the decidable predicate [accepts] (name
+   found; at most 255 octets across pointers; no '.' inside a label; at most 254 pointers), for ALL
+   byte strings, offsets, buffers and capacities: the dotted name and its end offset, else an error *)
 Theorem C17_name_decides : forall data off buf, wf data -> bytes_ok (arr data) ->
-  match ref_decode (view data) off with
+  match accepts (view data) off with
+  | Some (ls, n) => exists b, decodeName name_fuel data off buf 1 = Ok (dotted ls, n, b)
   | None => exists e, decodeName name_fuel data off buf 1 = Err e
-  | Some (ls, n) =>
-      let d := ref_depth (S (length (view data))) (view data) off in
-      (forall nm nx b, decodeName name_fuel data off buf 1 = Ok (nm, nx, b) -> nm = dotted ls /\ nx = n) /\
-      ((d <= 254)%nat -> (wire_len ls <= 256)%nat ->
-         exists b, decodeName name_fuel data off buf 1 = Ok (dotted ls, n, b)) /\
-      ((254 < d)%nat -> exists e, decodeName name_fuel data off buf 1 = Err e)
   end.
 Proof. exact name_decides. Qed.
 Print Assumptions C17_name_decides.
